@@ -307,7 +307,7 @@ fn calibrate() -> Expected {
     let out: Arc<StdMutex<Expected>> = Arc::new(StdMutex::new(Expected::default()));
     let o2 = out.clone();
     let mut cfg = Config::new();
-    cfg.stack_size = 0x100000;
+    cfg.stack_size = 0x400000;
     // shuttle installs its panic hook once per process with the FIRST config it sees, so every Runner of
     // this process uses the same persistence directory
     cfg.failure_persistence = FailurePersistence::File(Some(persist_dir()));
@@ -651,7 +651,7 @@ fn run_batch(kind: &str, seed: u64, iterations: usize, wl: Workload, _dir: &std:
     let bdir = persist_dir();
     let dir = &bdir;
     let mut cfg = Config::new();
-    cfg.stack_size = 0x100000;
+    cfg.stack_size = 0x400000;
     cfg.failure_persistence = FailurePersistence::File(Some(dir.to_path_buf()));
     cfg.max_steps = MaxSteps::FailAfter(2_000_000);
     let r = std::panic::catch_unwind(move || {
@@ -930,7 +930,13 @@ fn replay(path: &str) -> i32 {
     EXPECTED.set(ex).ok();
     take_first_panic();
     let r = std::panic::catch_unwind(move || {
-        shuttle::replay_from_file(move || scenario(wl), &sched);
+        // (not shuttle::replay_from_file: that uses the default configuration, whose task stacks are too small for
+        // the seventy-level envelope; the replay must run under the configuration of the search)
+        let scheduler = shuttle::scheduler::ReplayScheduler::new_from_file(&sched).expect("could not load the schedule file");
+        let mut cfg = Config::new();
+        cfg.stack_size = 0x400000;
+        cfg.failure_persistence = FailurePersistence::None;
+        Runner::new(scheduler, cfg).run(move || scenario(wl));
     });
     let first = take_first_panic();
     match r {
